@@ -742,10 +742,17 @@ package gedcom
 // API misuse; the decoder never reaches that (C03). For the invariant only
 // the objects that do get created matter.
 //@ func newNodeWithChildren
-//@   props C14
-//@   safety
+//@   props C14 C02 C01
+//@   safety C14
 //@   inline
 //@   allowpanic "cannot create"
+// C02 / C01 (the tag table): whatever specialised kind of node is made for a
+// line, it is ONE node, and it carries the tag that was read and the value
+// that was read (record kinds that have no value of their own keep it empty).
+//@   ghost nMade int = 0
+//@   deepcall newSimpleNode check carries-the-tag-and-value-read: arg0 == tag && (arg1 == value || arg1 == "")
+//@   deepcall newSimpleNode do nMade = nMade + 1
+//@   ensures one-node-per-line: nMade == 1
 //@ func newChildNodeWithIndividual
 //@   props C14
 //@   safety
